@@ -52,8 +52,8 @@ ASSUMPTIONS = [
 ]
 MANIFEST = {
     "technique": "Lean 4 proof (induction over the piece list of a template, for all pieces, paddings, markers and delimiters) of a line-by-line model of _tokenize_template + parser/render of the anchored tags; differential correspondence at three levels (regex matches, tokens, rendered output), exhaustive over marker combinations x piece kinds x neighbours",
-    "text": "Theorems lex_refines_spec, strip_rules, text_verbatim, raw_verbatim, comments_silent, render_strip_rules, tokens_start_in_source, lstrip_spec, rstrip_spec hold for every piece list with no bound on length, nesting depth of comments, padding or text; the model is tied to liquid/lex.py by comparing finditer matches, token lists (values and start offsets) and rendered output on every generated case.",
-    "note": "Trusted: Lean kernel (axioms propext/Classical.choice/Quot.sound only), the hand model, the harness, and the regex engine finding one match per well-formed piece (measured by the match stream, not proved). Two defects of the original tree were repaired on fix-C10 (endraw's right marker ignored; trailing newline of a template swallowed after a right-controlled tag); the model mirrors the repaired code.",
+    "text": "Theorems lex_refines_spec, nodes_split, strip_rules, strip_between, text_verbatim, whitespace_only_text, markup_item, raw_verbatim, comments_silent, render_strip_rules, render_raw_verbatim, render_comments_silent, wf_text_is_clean, tokens_start_in_source, lstrip_spec, rstrip_spec hold for every piece list with no bound on length, nesting depth of comments, padding or text; the model is tied to liquid/lex.py by comparing finditer matches, token lists (values and start offsets), parsed node lists and rendered output on every generated case.",
+    "note": "Trusted: Lean kernel (axioms propext/Classical.choice/Quot.sound only), the hand model, the harness, and the regex engine finding one match per well-formed piece (measured by the match stream, not proved). Three defects of the original tree were repaired on fix-C10 (endraw's right marker ignored; trailing newline of a template swallowed after a right-controlled tag; empty liquid tag consuming the following token); the model mirrors the repaired code.",
 }
 
 _ESC = re.compile("\x01(\\d+);")
